@@ -2,10 +2,10 @@ package main
 
 import (
 	"fmt"
-	"sort"
 	"go/constant"
 	"go/token"
 	"go/types"
+	"sort"
 	"strings"
 
 	"golang.org/x/tools/go/ssa"
@@ -384,7 +384,6 @@ func spacingChain(r *Resolver, v ssa.Value, wantFirst bool, seps map[string]bool
 	}
 	return false, "derivation through " + v.String() + " not understood"
 }
-
 
 // auditRecordHandedOn: the callback of the audit pipeline (a function of
 // ingesters/auditlog with a string parameter that is sent on a channel)
